@@ -298,6 +298,14 @@ def check(facts, rep, tier, cfg):
                             for s in b.blocks[x]["stmts"]:
                                 if s["k"] == "Assign" and s["rv"]["k"] == "Aggregate" and s["rv"]["agg"].get("variant") == "None" and b.edge_dominates((bb, zs), x):
                                     okz = True
+                                # the disabled value spelled as the associated constant (whose initialiser builds `None`)
+                                if s["k"] == "Assign" and s["rv"]["k"] == "Use" and b.edge_dominates((bb, zs), x):
+                                    it_ = s["rv"]["ops"][0].get("item") if s["rv"]["ops"][0].get("k") == "const" else None
+                                    cb = facts.by_dp.get(it_) if it_ else None
+                                    if cb is not None and "OptionalDuration" in (s["rv"]["ops"][0].get("ty") or "") and any(
+                                            s2["k"] == "Assign" and s2["rv"]["k"] == "Aggregate" and s2["rv"]["agg"].get("variant") == "None"
+                                            for blk2 in cb.blocks for s2 in blk2["stmts"]):
+                                        okz = True
             if okz:
                 rep.ok("C16.R4", "zero-is-none/%s" % b.name, where, "0 -> disabled")
             else:
